@@ -54,6 +54,10 @@ const (
 	kNil
 	kPtsss
 	kInt
+	kGeoms   // GeometryCollection: []Geom
+	kGeom    // an interface value of type Geom
+	kFuncOpt // a variable of type func() Point (nil = none)
+	kFuncVal // a freshly made func() Point value
 )
 
 // Go types of the subset: Lean kind, Lean type, element type of a range loop
@@ -766,6 +770,7 @@ type target struct {
 	file, recv, fn, lean string
 	boxBranch            bool // translate only the `if bp, ok := p.(*Bounds); ok {…}` branch
 	points               bool // a Points() closure (closures.go)
+	iface                bool // a method of GeometryCollection: interface dispatch rendered as parameters (collection.go)
 }
 
 func trFunc(fd *ast.FuncDecl, tg target) string {
@@ -878,46 +883,52 @@ func recvName(fd *ast.FuncDecl) string {
 }
 
 var targets = []target{
-	{"point.go", "Point", "Equals", "pointEquals", false, false},
-	{"bounds.go", "", "NewBounds", "newBounds", false, false},
-	{"bounds.go", "", "NewBoundsPoint", "newBoundsPoint", false, false},
-	{"bounds.go", "*Bounds", "Copy", "copy", false, false},
-	{"bounds.go", "*Bounds", "Empty", "empty", false, false},
-	{"bounds.go", "*Bounds", "extendPoint", "extendPoint", false, false},
-	{"bounds.go", "*Bounds", "extendPoints", "extendPoints", false, false},
-	{"bounds.go", "*Bounds", "extendPointss", "extendPointss", false, false},
-	{"bounds.go", "*Bounds", "Extend", "extend", false, false},
-	{"bounds.go", "*Bounds", "Overlaps", "overlaps", false, false},
-	{"bounds.go", "*Bounds", "Within", "withinBox", true, false},
-	{"bounds.go", "*Bounds", "Intersection", "intersectionBox", true, false},
-	{"bounds.go", "*Bounds", "Area", "area", false, false},
-	{"bounds.go", "*Bounds", "Centroid", "centroid", false, false},
-	// Bounds() and Len() of the geometry types (a collection dispatches on interface values: not in the subset)
-	{"point.go", "Point", "Bounds", "pointBounds", false, false},
-	{"point.go", "Point", "Len", "pointLen", false, false},
-	{"multipoint.go", "MultiPoint", "Bounds", "multiPointBounds", false, false},
-	{"multipoint.go", "MultiPoint", "Len", "multiPointLen", false, false},
-	{"linestring.go", "LineString", "Bounds", "lineStringBounds", false, false},
-	{"linestring.go", "LineString", "Len", "lineStringLen", false, false},
-	{"multilinestring.go", "MultiLineString", "Bounds", "multiLineStringBounds", false, false},
-	{"multilinestring.go", "MultiLineString", "Len", "multiLineStringLen", false, false},
-	{"polygon.go", "Polygon", "Bounds", "polygonBounds", false, false},
-	{"polygon.go", "Polygon", "Len", "polygonLen", false, false},
-	{"multipolygon.go", "MultiPolygon", "Bounds", "multiPolygonBounds", false, false},
-	{"multipolygon.go", "MultiPolygon", "Len", "multiPolygonLen", false, false},
-	{"bounds.go", "*Bounds", "Len", "boundsLen", false, false},
-	// Points() closures (closures.go); GeometryCollection and *Bounds are outside the subset, see there
+	{"point.go", "Point", "Equals", "pointEquals", false, false, false},
+	{"bounds.go", "", "NewBounds", "newBounds", false, false, false},
+	{"bounds.go", "", "NewBoundsPoint", "newBoundsPoint", false, false, false},
+	{"bounds.go", "*Bounds", "Copy", "copy", false, false, false},
+	{"bounds.go", "*Bounds", "Empty", "empty", false, false, false},
+	{"bounds.go", "*Bounds", "extendPoint", "extendPoint", false, false, false},
+	{"bounds.go", "*Bounds", "extendPoints", "extendPoints", false, false, false},
+	{"bounds.go", "*Bounds", "extendPointss", "extendPointss", false, false, false},
+	{"bounds.go", "*Bounds", "Extend", "extend", false, false, false},
+	{"bounds.go", "*Bounds", "Overlaps", "overlaps", false, false, false},
+	{"bounds.go", "*Bounds", "Within", "withinBox", true, false, false},
+	{"bounds.go", "*Bounds", "Intersection", "intersectionBox", true, false, false},
+	{"bounds.go", "*Bounds", "Area", "area", false, false, false},
+	{"bounds.go", "*Bounds", "Centroid", "centroid", false, false, false},
+	// Bounds() and Len() of the geometry types (GeometryCollection: further down)
+	{"point.go", "Point", "Bounds", "pointBounds", false, false, false},
+	{"point.go", "Point", "Len", "pointLen", false, false, false},
+	{"multipoint.go", "MultiPoint", "Bounds", "multiPointBounds", false, false, false},
+	{"multipoint.go", "MultiPoint", "Len", "multiPointLen", false, false, false},
+	{"linestring.go", "LineString", "Bounds", "lineStringBounds", false, false, false},
+	{"linestring.go", "LineString", "Len", "lineStringLen", false, false, false},
+	{"multilinestring.go", "MultiLineString", "Bounds", "multiLineStringBounds", false, false, false},
+	{"multilinestring.go", "MultiLineString", "Len", "multiLineStringLen", false, false, false},
+	{"polygon.go", "Polygon", "Bounds", "polygonBounds", false, false, false},
+	{"polygon.go", "Polygon", "Len", "polygonLen", false, false, false},
+	{"multipolygon.go", "MultiPolygon", "Bounds", "multiPolygonBounds", false, false, false},
+	{"multipolygon.go", "MultiPolygon", "Len", "multiPolygonLen", false, false, false},
+	{"bounds.go", "*Bounds", "Len", "boundsLen", false, false, false},
+	// Points() closures (closures.go)
 	{file: "point.go", recv: "Point", fn: "Points", lean: "point", points: true},
 	{file: "multipoint.go", recv: "MultiPoint", fn: "Points", lean: "multiPoint", points: true},
 	{file: "linestring.go", recv: "LineString", fn: "Points", lean: "lineString", points: true},
 	{file: "multilinestring.go", recv: "MultiLineString", fn: "Points", lean: "multiLineString", points: true},
 	{file: "polygon.go", recv: "Polygon", fn: "Points", lean: "polygon", points: true},
 	{file: "multipolygon.go", recv: "MultiPolygon", fn: "Points", lean: "multiPolygon", points: true},
+	// (*Bounds).Points: `defer func() { i++ }()` + `switch i { case …: return …; default: panic(…) }` (closures.go)
+	{file: "bounds.go", recv: "*Bounds", fn: "Points", lean: "bounds", points: true},
+	// GeometryCollection: calls on interface values are parameters of the rendered definition (collection.go)
+	{file: "geometrycollection.go", recv: "GeometryCollection", fn: "Len", lean: "geometryCollectionLen", iface: true},
+	{file: "geometrycollection.go", recv: "GeometryCollection", fn: "Bounds", lean: "geometryCollectionBounds", iface: true},
+	{file: "geometrycollection.go", recv: "GeometryCollection", fn: "Points", lean: "geometryCollectionPoints", iface: true},
 }
 
 const genHeader = `import GeomV.C04.Model
 /-! GENERATED by ` + "`harness/cmd/c04 extract`" + ` from bounds.go, point.go, multipoint.go, linestring.go,
-multilinestring.go, polygon.go, multipolygon.go of the tree under test.
+multilinestring.go, polygon.go, multipolygon.go, geometrycollection.go of the tree under test.
 Do not edit; regenerated by every ` + "`bin/check C04`" + ` run (checks/C04.py pregen).
 Tie lemmas: Ties.lean; theorems about these definitions: Src.lean. -/
 set_option linter.unusedVariables false
@@ -971,7 +982,9 @@ func extract(repo string) (string, []string) {
 			if fd == nil {
 				xfail("function not found")
 			}
-			if tg.points {
+			if tg.iface {
+				out = trIface(fd, tg.lean)
+			} else if tg.points {
 				out = trPoints(fd, tg.lean)
 			} else {
 				out = trFunc(fd, tg)
